@@ -4,6 +4,7 @@ import (
 	"bytes"
 	"encoding/json"
 	"fmt"
+	"strings"
 	"testing"
 	"time"
 
@@ -22,10 +23,22 @@ type C01Cfg struct {
 	N        int       `json:"n"`
 	T        int       `json:"t"`
 	Late     int       `json:"late"`
+	// Adapter, when set, makes this run the orchestrated-signing half of the property:
+	// KeyGen then Sign through a tss-lib adapter (EdDSA; ECDSA in the thorough tier).
+	Adapter *AdapterCfg `json:"adapter,omitempty"`
 }
 
 func genC01(seed uint64, tier string) C01Cfg {
 	r := prng.Derive(seed, "cfg")
+	if prng.Derive(seed, "kind").Bool(0.06) {
+		pE := 0.0
+		if tier == "thorough" {
+			pE = 0.08
+		}
+		a := genAdapter(seed, tier, pE)
+		a.Steal = 0
+		return C01Cfg{Adapter: &a, N: a.N, T: a.T, Strategy: a.Strategy, Serial: true, Late: -1}
+	}
 	maxN := 4
 	if tier == "thorough" {
 		maxN = 6
@@ -138,6 +151,29 @@ func runC01(t *testing.T, spec RunSpec) *RunResult {
 		cfg = genC01(spec.Seed, spec.Tier)
 	}
 	res := &RunResult{Property: "C01", Seed: spec.Seed, Cfg: mustJSON(cfg), Strategy: cfg.Strategy}
+	if cfg.Adapter != nil {
+		a := *cfg.Adapter
+		m := "loud"
+		if a.Deploy.Silent {
+			m = "silent"
+		}
+		res.ConfigKey = fmt.Sprintf("%s n=%d t=%d %s orchestrated-sign digestlen=%d", a.Deploy.Backend, a.N, a.T, m, len(a.Digest))
+		out := runAdapter(t, spec, a, res)
+		for _, v := range out.violations {
+			v.Invariant = "C01/" + v.Invariant
+			if !strings.HasPrefix(v.Class, "panic/") {
+				v.Class = "C01/" + v.Class
+			}
+			res.Violations = append(res.Violations, v)
+		}
+		if len(res.Violations) == 0 {
+			if k, d := signatureOracle(a, out, spec.Seed); k != "" {
+				res.Violations = append(res.Violations, netsim.Violation{Invariant: "C01/" + k, Class: "C01/" + k + "/" + a.Deploy.Backend, Detail: d})
+			}
+			res.Probes["orchestrated-signatures-verified"] = len(out.sigs)
+		}
+		return res
+	}
 	mode := "loud"
 	if cfg.Deploy.Silent {
 		mode = "silent"
